@@ -29,6 +29,7 @@
 
 size_t unhex(const char *h, unsigned char *out);
 void puthex(const unsigned char *b, size_t n);
+void putsum(const unsigned char *b, size_t n);
 extern time_t verif_now;
 extern unsigned char in[];	/* scratch: decoded hex of the current case */
 int handle_line(char *line);	/* per-property: returns 0 when the case is unknown */
